@@ -71,6 +71,23 @@ def _run(case):
         reserved = set(_builtin()) | set(user)
         an = SensitiveWordAnonymizer(list(words), salt, reserved)
         return [an.anonymize(l) for l in lines]
+    if via == "cli" and (salt.startswith("-") or any("," in w or w.startswith("-") for w in list(words) + list(user))):
+        via = "file"  # not expressible as separate command-line arguments
+    if via == "cli":
+        import os
+        import shutil
+        import tempfile
+
+        from netconan.netconan import main
+
+        d = tempfile.mkdtemp(prefix="vf-c10-")
+        try:
+            with open(os.path.join(d, "in.cfg"), "w", encoding="utf-8", newline="") as fh:
+                fh.write("".join(l + "\n" for l in lines))
+            main(["-i", os.path.join(d, "in.cfg"), "-o", os.path.join(d, "out.cfg"), "-s", salt, "-w", ",".join(words)] + (["-r", ",".join(user)] if user else []))
+            return open(os.path.join(d, "out.cfg"), "rb").read().decode("utf-8", "replace").split("\n")[:-1]
+        finally:
+            shutil.rmtree(d, ignore_errors=True)
     if via == "file":
         import os
         import shutil
@@ -198,6 +215,14 @@ def check_secret_reserved(case, ev):
 
     user, value, salt = case["reserved"], case["value"], case["salt"]
     line = case["form"].replace("{}", value)
+    slot = None
+    if case.get("sform"):
+        # any positional single-secret line form of the generators' table, with its trailing options
+        from ..gen import secrets as S
+
+        fid, hi, ti = case["sform"]
+        line, spans = S.render(S.FORM_BY_ID[fid], hi, ti, [value])
+        slot = len(line[: spans[0][0]].split()) - (1 if line[: spans[0][0]] and not line[spans[0][0] - 1].isspace() else 0)
     fa, exc = guarded(lambda: FileAnonymizer(anon_pwd=True, anon_ip=False, salt=salt, reserved_words=list(user) if user else None))
     if exc is not None:
         return core.exc_finding(exc, case, "ctor/")
@@ -210,7 +235,14 @@ def check_secret_reserved(case, ev):
     if exc is not None:
         return core.exc_finding(exc, case, "secrets/")
     is_res = value in _builtin() or value in user
-    ev.case(case, is_res and value in user, ["user-reserved" if value in user else "builtin-reserved" if is_res else "not-reserved", "mixed-case" if value.lower() != value else "lower"] + (["after-earlier-lines"] if case.get("prelude") else []))
+    ev.case(case, is_res and value in user, ["user-reserved" if value in user else "builtin-reserved" if is_res else "not-reserved", "mixed-case" if value.lower() != value else "lower"] + (["after-earlier-lines"] if case.get("prelude") else []) + (["table-form-with-options" if S.FORM_BY_ID[case["sform"][0]].trails[case["sform"][2]] else "table-form"] if case.get("sform") else []))
+    if slot is not None:
+        ti_, to_ = line.split(), out.split()
+        if is_res and (len(to_) <= slot or to_[slot] != ti_[slot]):
+            return Finding("secrets/reserved-value-replaced:%s:in-line-with-options" % ("user" if value in user else "builtin"), "reserved=%r: %r -> %r (token %d)" % (user, line, out, slot), case)
+        if not is_res and len(to_) > slot and to_[slot] == ti_[slot] and "SCRUBBED" not in out:
+            return Finding("secrets/non-reserved-value-kept", "reserved=%r: %r -> %r" % (user, line, out), case)
+        return None
     if is_res and out != line + "\n":
         return Finding("secrets/reserved-value-replaced:%s" % ("user" if value in user else "builtin"), "reserved=%r: %r -> %r" % (user, line, out), case)
     if not is_res and value in out and not value.isdigit():
@@ -299,7 +331,7 @@ def _case(draw):
                 toks.append(wc)
         lead = draw(st.sampled_from(["", " ", "   "]))
         lines.append(lead + "".join(t + draw(_ws) for t in toks).rstrip(" \t") + draw(st.sampled_from(["", "", " "])))
-    via = draw(st.sampled_from(["direct", "direct", "io", "file"]))
+    via = draw(st.sampled_from(["direct", "direct", "io", "file", "cli"]))
     pwd = False
     if via == "io" and draw(st.integers(0, 2)) == 0:
         # -p and -w together: listed words in front of (or behind) recognised secret forms
@@ -334,7 +366,16 @@ def _secret_case(draw):
         prelude.append(["set password " + enc, 'set system login user x authentication encrypted-password "' + enc + '"', "snmp-server community " + value + "x ro"][k])
         if draw(st.booleans()):
             prelude.append("password someOtherSecret9")
-    return {"reserved": user, "value": value, "form": draw(st.sampled_from(_FORMS)), "salt": draw(st.sampled_from(["", "s", "Tsalt"])), "prelude": prelude}
+    c = {"reserved": user, "value": value, "form": draw(st.sampled_from(_FORMS)), "salt": draw(st.sampled_from(["", "s", "Tsalt"])), "prelude": prelude}
+    if draw(st.booleans()):
+        from ..gen import secrets as S
+
+        forms = [f for f in S.POS_FORMS if f.slots == 1 and "text" in f.classes and not f.text_kw and f.reject is None]
+        f = draw(st.sampled_from(forms))
+        nz = [i for i, t in enumerate(f.trails) if t] or [0]
+        c["sform"] = [f.id, draw(st.integers(0, len(f.heads) - 1)), draw(st.sampled_from(nz)) if draw(st.integers(0, 2)) else draw(st.integers(0, len(f.trails) - 1))]
+        c["classes"] = ["form-" + f.id]
+    return c
 
 
 def t_words(shard, nshards, seed, ev, known, n=1000):
@@ -360,6 +401,6 @@ def plan(tier):
     q = tier == "quick"
     return [
         Task("words", t_words, shards=4 if q else 16, n=1200 if q else 15000),
-        Task("secrets", t_secrets, shards=1 if q else 4, n=300 if q else 5000),
+        Task("secrets", t_secrets, shards=4 if q else 8, n=1000 if q else 8000),
         Task("hashseeds", t_hashseeds, shards=2 if q else 16, n=150 if q else 2000, seeds=(0, 1, 2, 3) if q else (0, 1, 2, 3, 4, 5, 6, 7, "random")),
     ]
